@@ -34,7 +34,10 @@ def _gff(feats):
 
 
 def make_annotation(spec):
-    """spec: {"gtf": bool, "genes": [[n_tx, [n_exons...]], ...], "tag": str} -> text"""
+    """spec: {"gtf": bool, "genes": [[n_tx, [n_exons...]], ...], "tag": str} -> text
+    ({"empty": text} is an input without any feature line)"""
+    if "empty" in spec:
+        return spec["empty"]
     lines = []
     tag = spec["tag"]
     for gi, txs in enumerate(spec["genes"]):
@@ -82,14 +85,16 @@ class ClobberLeg(object):
 
         return st.fixed_dictionaries({
             "old": spec_strategy(st, "o"),
-            "new": st.one_of(spec_strategy(st, "n"), spec_strategy(st, "o")),
+            "new": st.one_of(spec_strategy(st, "n"), spec_strategy(st, "o"), spec_strategy(st, "n"),
+                             st.sampled_from([{"empty": ""}, {"empty": "##gff-version 3\n# nothing here\n"}, {"empty": "\n\n"}])),
             "force": st.booleans(),
             "keep_open": st.booleans(),
         })
 
     def classify(self, case):
         differ = make_annotation(case["old"]) != make_annotation(case["new"])
-        return differ, ["force=%s" % case["force"], "old-%s new-%s" % ("gtf" if case["old"]["gtf"] else "gff3", "gtf" if case["new"]["gtf"] else "gff3")]
+        newkind = "empty" if "empty" in case["new"] else ("gtf" if case["new"]["gtf"] else "gff3")
+        return differ, ["force=%s" % case["force"], "old-%s new-%s" % ("gtf" if case["old"]["gtf"] else "gff3", newkind)]
 
     def check(self, case, ctx):
         import gffutils
@@ -110,12 +115,18 @@ class ClobberLeg(object):
                 db2 = None
             if db2 is not None:
                 return Failure("create_db on an existing database without force=True did not raise", sig={"kind": "no-refusal"})
+            import os as _os
+
+            if not _os.path.exists(dbfn):
+                return Failure("a refused create_db (force=False) removed the existing database file", sig={"kind": "refused-but-removed"})
             again = gffutils.FeatureDB(dbfn)
             snap_now = dbsnap.snapshot(again)
             again.conn.close()
             dd = dbsnap.diff(snap_old, snap_now)
             if dd or snap_old != snap_now:
                 return Failure("a refused create_db changed the existing database: %s" % dd, sig={"kind": "refused-but-changed"})
+        elif "empty" in case["new"]:
+            pass  # force=True with an input that has no features: rejected by design, outcome not specified
         else:
             db2 = gffutils.create_db(p_new, dbfn, force=True)
             snap_forced = dbsnap.snapshot(db2)
